@@ -212,6 +212,27 @@ func (g *Gen) builtin(fn *ssa.Function, st *State, bi *ssa.Builtin, call *ssa.Ca
 		}
 		n := g.def("cpn", "Int", fmt.Sprintf("(ite (<= %s %s) %s %s)", dst.Len, src.Len, dst.Len, src.Len))
 		g.frameElemStore(st, dst.Ref, pos)
+		if stt, el, ok := structElem(call.Args[0].Type()); ok {
+			// slice of structs: every per-field array is moved (memmove semantics: all source elements are
+			// read from the state before the copy, so overlapping ranges are handled correctly)
+			var keys [][2]string
+			structFieldKeys(typeName(el), stt, &keys)
+			for _, k := range keys {
+				isB := k[1] == "bool"
+				srt, inner := hsfSortInt, "(Array Int Int)"
+				if isB {
+					srt, inner = hsfSortBool, "(Array Int Bool)"
+				}
+				cur := g.hsfGet(st, k[0], isB)
+				na := g.newSym("copiedf", inner)
+				q := "k!cp"
+				g.assume(st, fmt.Sprintf("(forall ((%s Int)) (! (= (select %s %s) (ite (and (<= %s %s) (< %s (+ %s %s))) (select (select %s %s) (+ %s (- %s %s))) (select (select %s %s) %s))) :pattern ((select %s %s))))",
+					q, na, q, dst.Off, q, q, dst.Off, n, cur, zeroRef(src.Ref), src.Off, q, dst.Off, cur, dst.Ref, q, na, q))
+				st.hsf[k[0]] = g.def("Hsf", srt, fmt.Sprintf("(store %s %s %s)", cur, dst.Ref, na))
+			}
+			g.setResult(result, intV(n))
+			return
+		}
 		na := g.newSym("copied", "(Array Int Int)")
 		q := "k!cp"
 		g.assume(st, fmt.Sprintf("(forall ((%s Int)) (= (select %s %s) (ite (and (<= %s %s) (< %s (+ %s %s))) (select %s (+ %s (- %s %s))) (select %s %s))))",
